@@ -38,7 +38,8 @@ def main():
     ap.add_argument("-j", type=int, default=4)
     a = ap.parse_args()
     paths = sorted(glob.glob(os.path.join(VERIF, "mutants", "*.diff")) + glob.glob(os.path.join(VERIF, "seeded", "*", "patch*.diff")))
-    paths = [p for p in paths if a.filter in p and "/_rejected/" not in p]
+    flt = [f.lower() for f in a.filter.split(",")]
+    paths = [p for p in paths if any(f in os.path.relpath(p, VERIF).lower() for f in flt) and "/_rejected/" not in p]
     results = []
     with ThreadPoolExecutor(a.j) as ex:
         for path, line in ex.map(lambda p: one(p, a.tier, max(2, 16 // a.j)), paths):
@@ -47,6 +48,20 @@ def main():
             results.append((rel, line))
     det = sum(1 for _, l in results if " DETECTED " in l)
     print("detected %d of %d" % (det, len(results)))
+    if a.filter:
+        # partial run: merge into the recorded results (lines of other items are kept as they were)
+        rp = os.path.join(VERIF, "mutants", "RESULTS.txt")
+        old = {}
+        for l in open(rp).read().splitlines():
+            if not l.startswith("#") and l.strip():
+                old[l.split()[0]] = l[61:]
+        for rel, l in results:
+            old[rel] = l[:160]
+        n_det = sum(1 for l in old.values() if " DETECTED " in l)
+        with open(rp, "w") as f:
+            f.write("# tools/selftest.py --tier %s : %d of %d detected (last partial run: filter %r)\n" % (a.tier, n_det, len(old), a.filter))
+            for rel in sorted(old):
+                f.write("%-60s %s\n" % (rel, old[rel]))
     if not a.filter:
         with open(os.path.join(VERIF, "mutants", "RESULTS.txt"), "w") as f:
             f.write("# tools/selftest.py --tier %s : %d of %d detected\n" % (a.tier, det, len(results)))
